@@ -193,6 +193,9 @@ pub enum Pred {
     WeightEq(u8),
     All,
     Never,
+    /// stateful: true for the first entry it is asked about, false from then on (the SUT
+    /// reports which key that was)
+    Once,
 }
 
 impl Pred {
@@ -202,6 +205,7 @@ impl Pred {
             Pred::WeightEq(x) => w == x as u32,
             Pred::All => true,
             Pred::Never => false,
+            Pred::Once => false,
         }
     }
 }
@@ -251,6 +255,7 @@ impl Op {
             Op::InvIf(Pred::WeightEq(w)) => format!("invif(w:{w})"),
             Op::InvIf(Pred::All) => "invif(all)".into(),
             Op::InvIf(Pred::Never) => "invif(never)".into(),
+            Op::InvIf(Pred::Once) => "invif(once)".into(),
             Op::Adv(n) => format!("adv({n})"),
             Op::Sync => "sync".into(),
             Op::IterAdv(n) => format!("iteradv({n})"),
@@ -277,6 +282,8 @@ impl Op {
                     Op::InvIf(Pred::All)
                 } else if args == "never" {
                     Op::InvIf(Pred::Never)
+                } else if args == "once" {
+                    Op::InvIf(Pred::Once)
                 } else if let Some(m) = args.strip_prefix("keys:") {
                     Op::InvIf(Pred::Keys(m.parse().unwrap()))
                 } else if let Some(w) = args.strip_prefix("w:") {
@@ -405,6 +412,23 @@ impl Sut {
                 Op::InvAll => {
                     c.invalidate_all();
                     Obs::Unit
+                }
+                Op::InvIf(Pred::Once) => {
+                    // a stateful predicate: selects the first entry it is shown
+                    let chosen = std::rc::Rc::new(std::cell::RefCell::new(Vec::<(u8, u32)>::new()));
+                    let ch = chosen.clone();
+                    let mut asked = 0u32;
+                    c.invalidate_entries_if(move |k, _v| {
+                        asked += 1;
+                        if asked == 1 {
+                            ch.borrow_mut().push((k.k, 0));
+                            true
+                        } else {
+                            false
+                        }
+                    });
+                    let v = chosen.borrow().clone();
+                    Obs::Items(v)
                 }
                 Op::InvIf(p) => {
                     c.invalidate_entries_if(move |k, v| p.eval(k.k, v.w));
@@ -545,6 +569,7 @@ pub fn alphabet(cfg: &Cfg) -> Vec<Op> {
                 a.push(Op::InvIf(Pred::Keys(0b001)));
                 a.push(Op::InvIf(Pred::Keys(0b110)));
                 a.push(Op::InvIf(Pred::All));
+                a.push(Op::InvIf(Pred::Once));
                 if cfg.weigher {
                     a.push(Op::InvIf(Pred::WeightEq(1)));
                 }
@@ -593,6 +618,7 @@ pub fn alphabet(cfg: &Cfg) -> Vec<Op> {
                 a.push(Op::InvIf(Pred::Keys(0b001)));
                 a.push(Op::InvIf(Pred::Keys(0b110)));
                 a.push(Op::InvIf(Pred::All));
+                a.push(Op::InvIf(Pred::Once));
                 a.push(Op::InvIf(Pred::Never));
                 if cfg.weigher {
                     a.push(Op::InvIf(Pred::WeightEq(1)));
